@@ -89,6 +89,11 @@ def add_allocs(d, rng, heavy=True):
         d["camask"] = rng.randrange(1, (1 << d["T"]) - 1)
         d["cthr"] = rng.choice([3, 7, 50])
         d["gan"] = d["dan"] = d["can"] = 0
+    if rng.random() < 0.12:
+        # same operations in two orders, alternating call by call (or every few calls): equal tallies, different peaks
+        d.update({"caalt": 1, "caops": "a64,d", "cavar": rng.choice([1, 1, 2, 3]), "gan": 0, "dan": 0, "can": 0, "caonly": 0})
+        d.pop("camask", None)
+        return d
     if rng.random() < 0.15:
         # release-only traffic: the threads free blocks that the main thread allocated before the run and allocate
         # nothing themselves (draining a pre-filled pool), inside the calls, the generator or the drops
@@ -264,6 +269,19 @@ def gen_c03(tier, seed):
                 d["ishape"] = rng.choice(["z", "s"])
             out.append(line(d))
             idx += 1
+    # samples that last months of scripted time: the total passes 2^64 ps (213.5 days) long before the configured count is
+    # reached; no limit is set (or one that cannot be reached), so the counts stay exact
+    for _ in range(8 if tier == "quick" else 200):
+        T = rng.choice([1, 2, 3])
+        d = {"id": idx, "entry": rng.choice([0, 2]), "T": T, "s": rng.choice([1, 2]), "n": rng.choice([5, 7]), "freq": rng.choice([1, 1000]),
+             "seed": rng.randrange(1 << 20), "fplog": 0, "oshape": "z", "skip": rng.choice([-1, 1, 0]), "_novos": rng.random() < 0.5}
+        d["cbase"] = 10 ** 7 * d["freq"] * rng.choice([1, 3])          # 10^7 (or 3*10^7) seconds per call
+        if d["entry"] == 2:
+            d["ishape"] = "s"
+        if rng.random() < 0.4:
+            d["max"] = 18446744073709551615 * 10 ** 9          # Duration::MAX
+        out.append(line(d))
+        idx += 1
     # a max_time that is set but never reached (with and without skip_ext_time): the counts must still be exact
     for _ in range(40 if tier == "quick" else 1500):
         T = rng.choice([1, 2, 2, 3, 4, 8])
@@ -534,6 +552,8 @@ def gen_c08_order(tier, seed):
         d["cathr"] = 1
         if not d["caops"]:
             d["caops"] = "a64,d"
+        if rng.random() < 0.2:
+            d["test"] = 1        # test mode takes the same timestamps, clears the same tallies and defers the same drops
         out.append(line(d))
     return out
 
